@@ -8,6 +8,8 @@ CLAIMED = {
  "C02": ("offset assertions of the step harnesses: Publish returns NextOffset+n and writes back dense offsets whatever the caller supplied; delete of the tail / of everything, optional close+reopen (Check/Recover), publish again never reuses an offset; NextOffset and Stat on arbitrary directories", "§4 C02"),
  "C03": ("pure searches (index.Consume, segment.Consume) for all item arrays within the bound, and Log.Consume / the cursor loop through the real Open on arbitrary well-formed directories (symbolic offsets, times, bytes; both format versions; empty head; holes)", "§4 C03"),
  "C04": ("index.Get / segment.Get for all arrays within the bound, and Log.Get with the full error taxonomy and agreement with Consume on arbitrary well-formed directories", "§4 C04"),
+ "C05": ("crash points at every file-system mutating call of klevdb inside publish (with rollover), delete (every structural outcome), eager migration and Recover itself, torn appends with a symbolic prefix length, followed by the real Open(Recover): recovered content, agreement of all views, NextOffset, idempotence of Recover, append + Check; counterexamples are replayed natively on an instrumented build that dies at the same call", "§4 C05"),
+ "C06": ("the same crash points under the tail-loss model: at the crash every file is cut to a symbolic length between its last fsynced length and its current length; everything acknowledged by Sync / AutoSync / Close survives Open(Recover)", "§4 C06"),
  "C07": ("Segment.Check / Segment.Recover on a head segment of valid records cut at a symbolic length, with one symbolic byte changed in any field, and with a truncated / changed / extended index; all four index configurations", "§4 C07"),
  "C09": ("GetByKey / OffsetByKey / ConsumeByKey on arbitrary well-formed directories with FNV as an uninterpreted function (free collisions), present and rebuilt indexes", "§4 C09"),
  "C10": ("index.Time for all arrays within the bound, and GetByTime / OffsetByTime on arbitrary well-formed directories with non-decreasing times (equal runs across segment boundaries, empty head, rebuilt indexes)", "§4 C10"),
